@@ -98,6 +98,14 @@ Definition sw_atom (prefix alpha : string) := b_atom (sweep prefix alpha).
 Definition show_match (r : pyres bool) : string := match r with Ok true => "1" | Ok false => "0" | Err _ => "E" end.
 Definition b_match (q : qatom) (atoms : list latom) (expected : string) : bool :=
   String.eqb (String.concat "" (map (fun a => show_match (match_atom q a)) atoms)) expected.
+(* from_atom: the 32 flag combinations (order: neighbors, hybridization, heteroatoms, hydrogens, ring_sizes; the last varies
+   fastest), each shown as the built query followed by 1/0 = it matches the atom it was made from *)
+Definition bools2 : list bool := [false; true].
+Definition b_from_atom (a : latom) (expected : string) : bool :=
+  String.eqb (String.concat nl
+    (flat_map (fun f1 => flat_map (fun f2 => flat_map (fun f3 => flat_map (fun f4 => map (fun f5 =>
+       let q := from_atom a f1 f2 f3 f4 f5 in (show_qatom q ++ show_match (match_atom q a))%string)
+     bools2) bools2) bools2) bools2) bools2)) expected.
 (* sparse form: the positions (0-based) of the atoms that match, and of those on which the comparison raises *)
 Fixpoint positions {A} (f : A -> bool) (l : list A) (i : Z) : list Z :=
   match l with [] => [] | x :: r => if f x then i :: positions f r (i + 1)%Z else positions f r (i + 1)%Z end.
